@@ -1,5 +1,7 @@
 import FormulaeModel.Proofs.ParserYield
 import FormulaeModel.Proofs.ParserStrat
+import FormulaeModel.Proofs.ParserRoundtrip
+import FormulaeModel.Proofs.ScannerLemmas
 import FormulaeModel.Properties.Tie
 /-
 C01 — property theorems (statements only use Model/, Spec/C01 and Generated/).
@@ -76,5 +78,272 @@ example : parsesTo
      ⟨.STAR, "*"⟩, ⟨.IDENTIFIER, "c"⟩, ⟨.COLON, ":"⟩, ⟨.IDENTIFIER, "d"⟩]
     "(bin TILDE (var y) (bin PLUS (var a) (bin STAR (var b) (bin COLON (var c) (var d)))))" = true := by
   decide +kernel
+
+/-! ### Fuel is not an artefact of the model -/
+
+/-- More fuel never changes an answer of the model other than "out of fuel". -/
+theorem C01_fuel_monotone (T : Table) (n n' : Nat) (h : n ≤ n') (ts : List Token)
+    (hne : parseFuel T n ts ≠ .error .fuel) : parseFuel T n' ts = parseFuel T n ts :=
+  parseFuel_mono T h ts hne
+
+/-- in particular `parseFuel T n ts = .ok e → parseFuel T (n+1) ts = .ok e` -/
+theorem C01_fuel_monotone_ok (T : Table) (n : Nat) (ts : List Token) (e : Expr)
+    (h : parseFuel T n ts = .ok e) : parseFuel T (n + 1) ts = .ok e := by
+  rw [parseFuel_mono T (Nat.le_succ n) ts (by simp [h]), h]
+
+/-- `Parser.parse` (fuel `fuelFor`) never rejects an input for lack of fuel: for every table and
+every token list the model's answer is a genuine answer of the recursive-descent algorithm. -/
+theorem C01_fuel_adequate (T : Table) (ts : List Token) : Parser.parse T ts ≠ .error .fuel :=
+  parse_ne_fuel T ts
+
+/-! ### Completeness / unique reading -/
+
+/-- **Round trip.** For every well-formed table and every derivation `e` of its grammar (no bound
+on size or depth), parsing the yield of `e` returns `e` — with the fuel `Parser.parse` really
+uses.  With `C01_yield` and `C01_stratified` this says that the parser accepts exactly the yields
+of derivations and reads each of them in exactly one way, the one precedence and left
+associativity prescribe. -/
+theorem C01_roundtrip (T : Table) (hW : TableWF T = true) (e : Expr)
+    (h : Stratified T e = true) : Parser.parse T e.flat = .ok e :=
+  roundtrip T hW e h
+
+/-- … for the table regenerated from the current source, against the documented grammar. -/
+theorem C01_roundtrip_documented (e : Expr) (h : Stratified documentedTable e = true) :
+    Parser.parse Generated.parserTable e.flat = .ok e := by
+  rw [Tie.parser_table]
+  exact C01_roundtrip _ (by decide) e h
+
+/-- The parser characterised: `parse ts = ok e` iff `e` is a derivation with yield `ts`. -/
+theorem C01_parse_iff (T : Table) (hW : TableWF T = true) (hE : T.eofCheck = true)
+    (ts : List Token) (e : Expr) :
+    Parser.parse T ts = .ok e ↔ (Stratified T e = true ∧ e.flat = ts) := by
+  constructor
+  · intro h
+    exact ⟨C01_stratified T hW _ ts e h, C01_yield T hE _ ts e h⟩
+  · rintro ⟨h1, rfl⟩
+    exact C01_roundtrip T hW e h1
+
+/-- The grammar is unambiguous: two derivations with the same yield are the same tree. -/
+theorem C01_unique_reading (T : Table) (hW : TableWF T = true) (e₁ e₂ : Expr)
+    (h₁ : Stratified T e₁ = true) (h₂ : Stratified T e₂ = true) (hf : e₁.flat = e₂.flat) :
+    e₁ = e₂ := by
+  have a := C01_roundtrip T hW e₁ h₁
+  have b := C01_roundtrip T hW e₂ h₂
+  rw [hf, b] at a
+  cases a; rfl
+
+/-- A token list that is not the yield of a derivation is rejected. -/
+theorem C01_rejects_non_sentences (T : Table) (hW : TableWF T = true) (hE : T.eofCheck = true)
+    (ts : List Token) (h : ∀ e, Stratified T e = true → e.flat ≠ ts) :
+    ∃ err, Parser.parse T ts = .error err ∧ err ≠ .fuel := by
+  cases hp : Parser.parse T ts with
+  | error err => exact ⟨err, rfl, fun hc => C01_fuel_adequate T ts (by rw [hp, hc])⟩
+  | ok e =>
+    have := (C01_parse_iff T hW hE ts e).1 hp
+    exact absurd this.2 (h e this.1)
+
+/-! ### The fully parenthesised form -/
+
+/-- Wrapping both operands of every operator in parentheses keeps a derivation a derivation. -/
+theorem C01_groupAll_stratified (T : Table) (hW : TableWF T = true) (e : Expr)
+    (h : Stratified T e = true) : Stratified T (groupAll e) = true :=
+  (groupAll_strat T hW e).2 h
+
+/-- **Fully parenthesised form.** An accepted token list is read exactly as its fully
+parenthesised form: the yield of `groupAll e` (every operand of every operator parenthesised) is
+accepted and parses to `groupAll e`, and the two trees differ only by grouping nodes, which carry
+no meaning (`ungroup` erases them; both resolvers of the library visit through `Grouping`). -/
+theorem C01_fullparen (T : Table) (hW : TableWF T = true) (ts : List Token) (e : Expr)
+    (h : Parser.parse T ts = .ok e) :
+    Parser.parse T (groupAll e).flat = .ok (groupAll e) ∧ ungroup (groupAll e) = ungroup e :=
+  ⟨C01_roundtrip T hW _ (C01_groupAll_stratified T hW e (C01_stratified T hW _ ts e h)),
+   ungroup_groupAll e⟩
+
+theorem C01_fullparen_generated (ts : List Token) (e : Expr)
+    (h : Parser.parse Generated.parserTable ts = .ok e) :
+    Parser.parse Generated.parserTable (groupAll e).flat = .ok (groupAll e)
+      ∧ ungroup (groupAll e) = ungroup e :=
+  C01_fullparen _ Tie.parser_table_wf ts e h
+
+/-- Redundant parentheses around a whole derivation: still a derivation, same meaning. -/
+theorem C01_redundant_parens (T : Table) (hW : TableWF T = true) (e : Expr)
+    (h : Stratified T e = true) :
+    Parser.parse T (Expr.grouping Spec.C01.lp e Spec.C01.rp).flat = .ok (.grouping Spec.C01.lp e Spec.C01.rp)
+      ∧ ungroup (.grouping Spec.C01.lp e Spec.C01.rp) = ungroup e := by
+  refine ⟨C01_roundtrip T hW _ ?_, by simp [ungroup]⟩
+  simp only [Stratified, stratTop, stratBin, Spec.C01.lp, Spec.C01.rp] at h ⊢
+  simpa using h
+
+/-- The strengthened well-formedness is needed: with `[` as a binary operator the derivation
+`a [ b` is not what the parser reads (it starts the subset notation `a[…]`). -/
+def badTable : Table := { documentedTable with levels := [[.LEFT_BRACKET]] }
+def badTree : Expr := .binary (.variable ⟨.IDENTIFIER, "a"⟩) ⟨.LEFT_BRACKET, "["⟩ (.variable ⟨.IDENTIFIER, "b"⟩)
+def parsesToOther (T : Table) (e : Expr) : Bool :=
+  match Parser.parse T e.flat with | .ok e' => e'.sexp != e.sexp | .error _ => true
+theorem C01_roundtrip_needs_table_wf :
+    Stratified badTable badTree = true ∧ parsesToOther badTable badTree = true := by
+  constructor
+  · simp [Stratified, stratTop, stratBin, badTree, badTable, opLevel, lvl, documentedTable]
+  · decide +kernel
+
+-- non-vacuity: a derivation of the documented grammar with every kind of node
+def sampleTree : Expr :=
+  let v (s : String) : Expr := .variable ⟨.IDENTIFIER, s⟩
+  .binary (v "y") ⟨.TILDE, "~"⟩
+    (.binary
+      (.binary (v "a") ⟨.PLUS, "+"⟩
+        (.binary (.unary ⟨.MINUS, "-"⟩ (v "b")) ⟨.STAR, "*"⟩
+          (.call (v "f") ⟨.LEFT_PAREN, "("⟩
+            (.more (.assign (v "k") ⟨.EQUAL, "="⟩ (.literal ⟨.NUMBER, "2"⟩)) ⟨.COMMA, ","⟩
+              (.last (.subset ⟨.IDENTIFIER, "x"⟩ ⟨.LEFT_BRACKET, "["⟩ (.literal ⟨.STRING, "'u'"⟩)
+                ⟨.RIGHT_BRACKET, "]"⟩)))
+            ⟨.RIGHT_PAREN, ")"⟩)))
+      ⟨.PLUS, "+"⟩
+      (.grouping ⟨.LEFT_PAREN, "("⟩
+        (.binary (v "c") ⟨.PIPE, "|"⟩ (.brace ⟨.LEFT_BRACE, "{"⟩ (.quoted ⟨.BQNAME, "`g h`"⟩) ⟨.RIGHT_BRACE, "}"⟩))
+        ⟨.RIGHT_PAREN, ")"⟩))
+
+theorem sampleTree_stratified : Stratified documentedTable sampleTree = true := by
+  simp [sampleTree, Stratified, stratTop, stratBin, stratArgs, opLevel, lvl, documentedTable,
+    isPrimary, isCall, isVariable, subsetLevelOk, List.findIdx?_cons]
+example : Parser.parse documentedTable sampleTree.flat = .ok sampleTree :=
+  C01_roundtrip _ (by decide) _ sampleTree_stratified
+example : Stratified documentedTable (groupAll sampleTree) = true :=
+  C01_groupAll_stratified _ (by decide) _ sampleTree_stratified
+example : TableWF documentedTable = true := by decide
+
+/-! ### Scanner -/
+section scanner
+open FormulaeModel.Scanner FormulaeModel.Spec.C01.Layout
+
+/-- **A second `~` is rejected; the implicit intercept.** An accepted scan (any input, any length)
+contains at most one `TILDE` token; without `add_intercept` the tokens are those of the text; with
+it they are those of the text with `1`, `+` inserted right after the tilde, or in front when there
+is none. -/
+theorem C01_second_tilde (code : List Char) (addInt : Bool) (ts : List Token)
+    (h : Scanner.scan code addInt = .ok ts) :
+    (ts.filter isTilde).length ≤ 1 ∧
+    (addInt = false → Scanner.scan code false = .ok ts) ∧
+    (addInt = true →
+      (∃ ts0, Scanner.scan code false = .ok ts0 ∧ ts0.any isTilde = false ∧ ts = one :: plus :: ts0) ∨
+      (∃ pre tl post, Scanner.scan code false = .ok (pre ++ tl :: post) ∧ isTilde tl = true ∧
+        (∀ a ∈ pre, isTilde a = false) ∧ (∀ a ∈ post, isTilde a = false) ∧
+        ts = pre ++ tl :: one :: plus :: post)) :=
+  scan_tilde_structure h
+
+/-- … and a text with two tildes is rejected with the tilde error (`y~x~z`). -/
+def twoTildesRejected : Bool :=
+  match Scanner.scan ['y', '~', 'x', '~', 'z'] with
+  | .error .tildes => true
+  | _ => false
+theorem C01_second_tilde_example : twoTildesRejected = true := by decide +kernel
+
+/-- **Unterminated quotes.** `scan_token` at a quote character with no later quote character (of
+either kind: the scanner closes a string at the next `'` or `"`) fails, likewise a backquote. -/
+theorem C01_unterminated_token (q : Char) (cs : List Char) :
+    (isQuote q = true → (∀ c ∈ cs, isQuote c = false) →
+      scanToken (q :: cs) = .error .unterminatedString) ∧
+    ((∀ c ∈ cs, c ≠ '`') → scanToken ('`' :: cs) = .error .unterminatedBackquote) :=
+  ⟨scanToken_unterminated_string q cs, scanToken_unterminated_backquote cs⟩
+
+/-- **Unterminated quotes, whole text.** If a quote (or backquote) stands at a token boundary of
+the text (`Boundary`: reached by complete `scan_token` steps) and no closing character follows, the
+text is rejected, whatever comes before it. -/
+theorem C01_unterminated (code : List Char) (q : Char) (cs : List Char)
+    (hb : Boundary code (q :: cs))
+    (hq : (isQuote q = true ∧ ∀ c ∈ cs, isQuote c = false) ∨ (q = '`' ∧ ∀ c ∈ cs, c ≠ '`'))
+    (addInt : Bool) (ts : List Token) : Scanner.scan code addInt ≠ .ok ts :=
+  scan_unterminated hb hq addInt ts
+
+/-- executable form of one `scan_token` step, for concrete examples -/
+def stepsTo (cs : List Char) (t : Option Token) (cs' : List Char) : Bool :=
+  match scanToken cs with
+  | .ok (t', r) => t' == t && r == cs'
+  | .error _ => false
+theorem stepsTo_spec {cs t cs'} (h : stepsTo cs t cs' = true) : scanToken cs = .ok (t, cs') := by
+  unfold stepsTo at h
+  split at h
+  · rename_i t' r heq
+    simp only [Bool.and_eq_true, beq_iff_eq] at h
+    rw [heq, h.1, h.2]
+  · cases h
+
+-- `y ~ 'ab`: the quote is at a token boundary, so the text is rejected
+example : Boundary ['y', ' ', '~', ' ', '\'', 'a', 'b'] ['\'', 'a', 'b'] :=
+  .step (t := some ⟨.IDENTIFIER, "y"⟩) (cs' := [' ', '~', ' ', '\'', 'a', 'b']) (stepsTo_spec (by decide +kernel)) <|
+  .step (t := none) (cs' := ['~', ' ', '\'', 'a', 'b']) (stepsTo_spec (by decide +kernel)) <|
+  .step (t := some ⟨.TILDE, "~"⟩) (cs' := [' ', '\'', 'a', 'b']) (stepsTo_spec (by decide +kernel)) <|
+  .step (t := none) (cs' := ['\'', 'a', 'b']) (stepsTo_spec (by decide +kernel)) <| .here _
+
+/-- The scanner model never rejects for lack of fuel. -/
+theorem C01_scan_fuel_adequate (code : List Char) (addInt : Bool) :
+    Scanner.scan code addInt ≠ .error .fuel := scan_ne_fuel code addInt
+
+/-- **The scanner inverts admissible layouts.** For every list of token spellings laid out with
+whitespace gaps (non-empty gaps wherever adjacency would merge two spellings) the scan returns
+exactly these tokens (then the tilde check and the implicit intercept). -/
+theorem C01_scan_render (ps : List Piece) (trail : List Char) (addInt : Bool)
+    (h : Admissible ps trail) (hne : ps ≠ []) :
+    Scanner.scan (render ps trail) addInt =
+      if ps.any (fun p => p.chars.any nonAscii) then .error .nonAscii
+      else if ((ps.map Piece.tok).filter isTilde).length > 1 then .error .tildes
+      else .ok (if addInt then addIntercept (ps.map Piece.tok) else ps.map Piece.tok) :=
+  scan_render ps trail addInt h hne
+
+/-- **Whitespace between tokens never changes the tokens.** Two admissible layouts of the same
+spellings — any gaps of blanks, tabs, newlines, carriage returns, before, between and after the
+tokens — are scanned to the same answer. -/
+theorem C01_ws (ps₁ ps₂ : List Piece) (trail₁ trail₂ : List Char)
+    (h₁ : Admissible ps₁ trail₁) (h₂ : Admissible ps₂ trail₂)
+    (hsame : ps₁.map (fun p => (p.kind, p.chars)) = ps₂.map (fun p => (p.kind, p.chars)))
+    (hne : ps₁ ≠ []) (addInt : Bool) :
+    Scanner.scan (render ps₁ trail₁) addInt = Scanner.scan (render ps₂ trail₂) addInt :=
+  scan_layout_irrelevant ps₁ ps₂ trail₁ trail₂ h₁ h₂ hsame hne addInt
+
+/-- A non-empty gap is admissible after every token: whitespace never merges with a token. -/
+theorem C01_ws_gap_always_ok (k : Kind) (w : Char) (cs : List Char) (h : isWs w = true) :
+    sepOk k (w :: cs) = true := sepOk_ws k w cs h
+
+/-- Leading whitespace of an arbitrary text (admissible or not) is skipped. -/
+theorem C01_ws_leading (w : Char) (cs : List Char) (addInt : Bool) (h : isWs w = true)
+    (hne : cs ≠ []) : Scanner.scan (w :: cs) addInt = Scanner.scan cs addInt :=
+  scan_ws_leading w cs addInt h hne
+
+/-- `hne` is needed: the empty text is rejected, a blank one is the empty formula. -/
+def scansTo (cs : List Char) (ts : List Token) : Bool :=
+  match Scanner.scan cs true with
+  | .ok ts' => ts' == ts
+  | .error _ => false
+def scanRejectsEmpty (cs : List Char) : Bool :=
+  match Scanner.scan cs true with
+  | .error .empty => true
+  | _ => false
+theorem C01_ws_empty_text_differs :
+    scanRejectsEmpty [] = true ∧ scansTo [' '] [one, plus] = true := by
+  constructor <;> decide +kernel
+
+-- non-vacuity: `y~ a  +b1 ` and ` y ~a+ b1` are admissible layouts of the same four spellings
+def layoutA : List Piece :=
+  [⟨[], .IDENTIFIER, ['y']⟩, ⟨[], .TILDE, ['~']⟩, ⟨[' '], .IDENTIFIER, ['a']⟩, ⟨[' ', ' '], .PLUS, ['+']⟩,
+   ⟨[], .IDENTIFIER, ['b', '1']⟩]
+def layoutB : List Piece :=
+  [⟨[' '], .IDENTIFIER, ['y']⟩, ⟨[' '], .TILDE, ['~']⟩, ⟨[], .IDENTIFIER, ['a']⟩, ⟨[], .PLUS, ['+']⟩,
+   ⟨['\t'], .IDENTIFIER, ['b', '1']⟩]
+
+example : Admissible layoutA [' '] ∧ Admissible layoutB [] ∧
+    layoutA.map (fun p => (p.kind, p.chars)) = layoutB.map (fun p => (p.kind, p.chars)) := by
+  have hy : Lexeme .IDENTIFIER ['y'] := .ident 'y' [] (by decide) (by simp) (by decide +kernel)
+  have ht : Lexeme .TILDE ['~'] := .fixed _ _ (by simp [fixedLexemes])
+  have ha : Lexeme .IDENTIFIER ['a'] := .ident 'a' [] (by decide) (by simp) (by decide +kernel)
+  have hp : Lexeme .PLUS ['+'] := .fixed _ _ (by simp [fixedLexemes])
+  have hb : Lexeme .IDENTIFIER ['b', '1'] :=
+    .ident 'b' ['1'] (by decide) (by intro d hd; simp at hd; subst hd; decide) (by decide +kernel)
+  refine ⟨?_, ?_, rfl⟩
+  · simp only [layoutA, Admissible, render]
+    refine ⟨?_, hy, ?_, ?_, ht, ?_, ?_, ha, ?_, ?_, hp, ?_, ?_, hb, ?_, ?_⟩ <;> decide +kernel
+  · simp only [layoutB, Admissible, render]
+    refine ⟨?_, hy, ?_, ?_, ht, ?_, ?_, ha, ?_, ?_, hp, ?_, ?_, hb, ?_, ?_⟩ <;> decide +kernel
+
+end scanner
 
 end FormulaeModel.C01
